@@ -1,7 +1,8 @@
 (* Property C09 — the square-root-of-ratio routine meets its four-case contract on every input, and never panics. *)
 Require Import ZArith List Bool.
 From D377 Require Import Base.Certs Base.ZpField Base.FieldSec Base.Fields Model.Decaf Model.Sqrt Model.Concrete.
-From D377 Require Import Spec.Edwards Spec.DecafSpec Proofs.Instance Proofs.Final.
+From D377 Require Import Spec.Edwards Spec.DecafSpec Proofs.Instance Proofs.Final Tie.SqrtArk.
+From D377 Require Generated.Curve.
 Local Existing Instance FqF.
 
 (* sqrt_ratio_contract zeta sr  (Spec/DecafSpec.v):
@@ -20,7 +21,20 @@ Proof.
 Qed.
 Theorem C09_min_contract : sqrt_ratio_contract ark_ZETA gen_min_sr.
 Proof. exact (contract_ext ark_ZETA gen_min_sr min_sr gen_min_sr_eq min_sr_contract). Qed.
-(* table-driven routine of the arkworks build (hand model of src/ark_curve/invsqrt.rs incl. the table construction) *)
+(* table-driven routine of the arkworks build, on the code regenerated from src/ark_curve/invsqrt.rs (sqrt_ratio_zeta);
+   the table construction SquareRootTables::new is a hand model (Model/Sqrt.v mk_tables) *)
+Definition gen_ark_sr_opt (num den : Fq) : option (bool * Fq) :=
+  Generated.Curve.ark_sqrt_ratio ark_tables ark_N ark_M_MINUS_ONE_DIV_TWO num den.
+Definition gen_ark_sr (num den : Fq) : bool * Fq := match gen_ark_sr_opt num den with Some r => r | None => (false, zero) end.
+Lemma gen_ark_sr_opt_eq n d : gen_ark_sr_opt n d = ark_sr_opt n d.
+Proof. unfold gen_ark_sr_opt, ark_sr_opt. exact (@tie_ark_sqrt_ratio FqF ark_tables ark_N ark_M_MINUS_ONE_DIV_TWO n d). Qed.
+Lemma gen_ark_sr_eq n d : gen_ark_sr n d = ark_sr n d.
+Proof. unfold gen_ark_sr, ark_sr. rewrite gen_ark_sr_opt_eq. reflexivity. Qed.
+Theorem C09_ark_generated_contract : sqrt_ratio_contract ark_ZETA gen_ark_sr.
+Proof. exact (contract_ext ark_ZETA gen_ark_sr ark_sr gen_ark_sr_eq ark_sr_contract). Qed.
+Theorem C09_ark_generated_never_panics : forall num den : Fq, exists r, gen_ark_sr_opt num den = Some r.
+Proof. intros n d. rewrite gen_ark_sr_opt_eq. exact (ark_sr_total n d). Qed.
+(* the same statements for the hand model ( of src/ark_curve/invsqrt.rs incl. the table construction) *)
 Theorem C09_ark_contract : sqrt_ratio_contract ark_ZETA ark_sr.
 Proof. exact ark_sr_contract. Qed.
 Theorem C09_ark_never_panics : forall num den : Fq, exists r, ark_sr_opt num den = Some r.
